@@ -7,6 +7,11 @@ import (
 
 // parse and return tag and length, also the length of two parts
 func parseTagAndLength(bytes []byte) (r tagAndLen, off int, e error) {
+	if len(bytes) == 0 {
+		e = fmt.Errorf("no data to parse tag and length")
+		return r, off, e
+	}
+	total := len(bytes)
 	off++
 	r.class = int(bytes[0] >> 6)
 	r.constructed = (bytes[0] & 0x20) != 0
@@ -42,6 +47,10 @@ func parseTagAndLength(bytes []byte) (r tagAndLen, off int, e error) {
 			return r, off, e
 		}
 		off++
+		if off+len > total {
+			e = fmt.Errorf("length octets out of range")
+			return r, off, e
+		}
 		// the length is an unsigned number (X.690 8.1.3.5)
 		var val int64
 		for _, b := range bytes[off : off+len] {
